@@ -53,6 +53,9 @@ def reset_pool():
         POOL[k] = P.Query.from_(P.Table("p" + k.lower())).select("z")
 
 
+TABLE_CLS = None
+
+
 class Label:
     def __init__(self, name, meth, fn, extra=()):
         self.name = name      # unique label, e.g. "where#local"
@@ -76,7 +79,7 @@ def families() -> dict[str, Family]:
     from pypika_tortoise.queries import Column
     from pypika_tortoise.terms import Tuple
 
-    T = P.Table
+    T = TABLE_CLS or P.Table   # (C02 substitutes a Table subclass that reports when it is rendered: a probe inside the render)
     t1, t2 = T("t1"), T("t2")
 
     def L(name, meth, f, extra=()):
